@@ -340,3 +340,29 @@ PROPS["C16"] = {
         {"name": "rapid", "mode": "rapid", "run": "TestC16Rapid", "checks": {"quick": 24000, "thorough": 480000}},
     ],
 }
+
+PROPS["C14"] = {
+    "level": "exploration",
+    "rule": ("rapid state machine over one cache. Initial state: 1..3 Spec files (json/yaml, declared version = the model's minimum, so that an "
+             "added hostPath would make a written-back Spec invalid) with 1..2 devices each and optional spec-level edits; every device node "
+             "leaves a drawn subset of {hostPath, type, major/minor} unspecified and points - by hostPath or by its path itself - at one of "
+             "four host nodes in a sandbox directory (mknod char/block with drawn numbers, FIFO, regular file, missing). Actions: inject a "
+             "drawn request into a fresh OCI spec and into a twin copy (or repeat the previous request on an equal OCI spec), "
+             "Device.ApplyEdits, Spec.ApplyEdits, replace a host node by another type/major/minor (or remove it), write a cached Spec back "
+             "through another cache and read it. Oracle: (1) after every action the JSON image of every cached Spec (GetVendorSpecs) and "
+             "device (GetDevice, Spec.GetDevice) equals the file content it was generated from; (2) twin and repeated injections with "
+             "unchanged host give equal results; (3) every injection satisfies the C03 predicate evaluated on the pristine edits against the "
+             "*current* host nodes (so attributes left unspecified follow a host change); (4) write-back succeeds and reads back equal to "
+             "the original file. One case = one history (~30 steps; counter 'steps'). Non-trivial iff >= 2 injections with a host change in "
+             "between on a node that needs the host; distinct = distinct histories."),
+    "assumptions": ["mknod available (root); otherwise host changes are limited to FIFO / regular file / missing and the evidence says so"],
+    "manifest": {
+        "text": "Model-based stateful test: the cache must stay equal to the generated files through any sequence of injections, edit applications and host-node changes; sampling of histories.",
+        "note": "trusted: the C03 predicate (checkEditsApplied) and the generated pristine documents as the model of the cache content",
+        "technique": "property-based testing: rapid state machine, invariant over the history (cache image unchanged), metamorphic repetition, C03 predicate against the current host",
+    },
+    "health": {"quick": {"host-changed": 1000, "injection-after-host-change": 500, "repeated-injection": 1000}},
+    "units": [
+        {"name": "rapid", "mode": "rapid", "run": "TestC14Rapid", "checks": {"quick": 8000, "thorough": 160000}},
+    ],
+}
